@@ -139,7 +139,7 @@ struct Ctx {
   std::vector<std::string> viol;  // JSON records
   std::vector<std::string> samples;
   std::map<std::string, double> notes;
-  size_t max_viol_detail = 3000;
+  size_t max_viol_detail = 20000;
 
   void eval(uint64_t n = 1) { c.evaluations += n; }
   void nontrivial(uint64_t n = 1) { c.nontrivial += n; }
@@ -216,7 +216,7 @@ inline void worker_loop(Shared* sh, int slot, uint64_t ncases, const std::string
       }
     }
     for (auto& v : c.viol) {
-      if (nviol++ < 20000) { if (!vf) vf = fopen(vpath.c_str(), "w"); fprintf(vf, "%s\n", v.c_str()); fflush(vf); }
+      if (nviol++ < 400000) { if (!vf) vf = fopen(vpath.c_str(), "w"); fprintf(vf, "%s\n", v.c_str()); fflush(vf); }
     }
     for (auto& s : c.samples) {
       if (nsamples++ < 3) { if (!sf) sf = fopen(spath.c_str(), "w"); fprintf(sf, "%s\n", s.c_str()); fflush(sf); }
